@@ -533,7 +533,15 @@ impl FormatSpec {
                         self.alternate_form,
                         true,
                     )),
-                    None => Ok(float::to_string(magnitude)),
+                    None => {
+                        let repr = float::to_string(magnitude);
+                        // '#' asks for a decimal point; only exponent notation can lack one
+                        Ok(if self.alternate_form && !repr.contains('.') {
+                            repr.replacen('e', ".e", 1)
+                        } else {
+                            repr
+                        })
+                    }
                 },
             },
         };
